@@ -219,7 +219,9 @@ def load_profile_flags(which, sites, tmp, k=None):
         st = copy.deepcopy(ev)
         key = list(st[k])[0]
         st[k][key] = False
-        p = os.path.join(tmp, f"disabled_{k}.json")
+        # ONE path for all user-written profiles of the check, rewritten for every case: what a profile says is read
+        # from the file each time, not remembered from an earlier run of the process
+        p = os.path.join(tmp, "user_profile.json")
         with open(p, "w") as fh:
             json.dump({"stages": st}, fh)
         return p, [i != k for i in range(len(sites))]
@@ -231,7 +233,7 @@ def load_profile_flags(which, sites, tmp, k=None):
         for i in off:
             if i < len(st):
                 st[i][list(st[i])[0]] = False
-        p = os.path.join(tmp, "disabled_set_" + "_".join(map(str, sorted(off)))[:120] + ".json")
+        p = os.path.join(tmp, "user_profile.json")
         with open(p, "w") as fh:
             json.dump({"stages": st}, fh)
         return p, [i not in off for i in range(len(sites))]
